@@ -162,6 +162,19 @@ def check(case, ctx):
     coss = np.cos(np.radians(ang))
     ctx.near("umis=angle(U1'U2 rot')", O.maxabs(coss - cosref) * (1e-12 / tol_def), 1e-12, "umis-definition",
              "Umis angles %r are not the rotation angles of U1'.U2.rot[k]' (cos dev %g)" % (ang.tolist(), O.maxabs(coss - cosref)))
+    # the same in angle space, with a reference that stays accurate for tiny and near-180 angles (atan2 of the axial
+    # vector's length and the trace) and a tolerance that follows the conditioning of the library's arccos:
+    # d(angle) ~ eps_cos / sin(angle), eps_cos ~ 1e-14 for a sum of nine products (float64 inputs)
+    worst = 0.0
+    for i in range(N):
+        Rm = M @ R[i].T
+        ax = 0.5 * math.sqrt((Rm[2, 1] - Rm[1, 2]) ** 2 + (Rm[0, 2] - Rm[2, 0]) ** 2 + (Rm[1, 0] - Rm[0, 1]) ** 2)
+        ref_ang = math.atan2(ax, (np.trace(Rm) - 1) / 2)
+        eps_c = 2e-14
+        allow = (2 * min(eps_c / max(math.sin(ref_ang), 1e-300), math.sqrt(2 * eps_c)) + 1e-12) * (tol_def / 1e-12)
+        worst = max(worst, abs(math.radians(float(ang[i])) - ref_ang) / allow)
+    ctx.near("umis angle (conditioning-aware)", worst, 1.0, "umis-definition-angle",
+             "a Umis angle differs from the rotation angle of U1'.U2.rot[k]' by %.3g times the conditioning-aware allowance (angles %r)" % (worst, ang.tolist()[:6]))
     ctx.nontrivial(k >= 4 and float(np.min(ang)) > 1.0)
     ctx.event("system-%d" % k)
     srt = np.sort(coss)
